@@ -77,6 +77,16 @@ Theorem C10_cancel_false : forall (Res : Type) (body : bool -> Res) progs sched 
                 fc_resp Res e1 < fc_inv Res e2 -> b = true).
 Proof. exact future_cancel_false. Qed.
 
+(** no hang: in every reachable state in which the body has not delivered yet or some caller still has
+    a call to make or to finish, some thread can move: nobody waits for ever for f.mu, and an
+    outcome that was delivered is never lost (it is in the slot or with the one reader that is
+    re-depositing it), so a patient deref is only ever waiting for the body *)
+Theorem C10_never_stuck : forall (Res : Type) (body : bool -> Res) progs sched,
+  let s := frun Res body (finit Res progs) sched in
+  (f_body Res s <> BEnd Res \/ exists t c, nth_error (f_callers Res s) t = Some c /\ (cpc_of Res c <> CIdle Res \/ ctodo Res c <> [])) ->
+  exists w s', fstep Res body s w = Some s'.
+Proof. exact future_never_stuck. Qed.
+
 (** the executable clause checker the harness runs on the recorded histories of the real futures
     accepts every history of the model *)
 Theorem C10_checker_accepts_model : forall (Res : Type) (body : bool -> Res) (res_eqb : Res -> Res -> bool),
@@ -105,4 +115,5 @@ Print Assumptions C10_status_monotone.
 Print Assumptions C10_done_after_deref.
 Print Assumptions C10_cancel_true.
 Print Assumptions C10_cancel_false.
+Print Assumptions C10_never_stuck.
 Print Assumptions C10_checker_accepts_model.
